@@ -253,6 +253,7 @@ func (x *Exec) atLoopHead(st *State, f *Frame, li *LoopInfo) bool {
 	fname := funcKey(f.fn)
 	ctx := x.newSpecCtx(st, f, f.fn)
 	ctx.loop = li
+	x.bindLoopLets(ctx, st, f)
 	if entry, ok := f.active[li.head]; ok {
 		// arrived through a back edge
 		st.Note(fmt.Sprintf("backedge loop%d", li.ordinal))
@@ -286,6 +287,7 @@ func (x *Exec) atLoopHead(st *State, f *Frame, li *LoopInfo) bool {
 	if spec != nil {
 		ctx2 := x.newSpecCtx(st, f, f.fn)
 		ctx2.loop = li
+		x.bindLoopLets(ctx2, st, f)
 		for _, inv := range spec.Invariants {
 			st.Assume(ctx2.boolExpr(inv.E, false))
 		}
@@ -474,5 +476,19 @@ func (x *Exec) havocIter(st *State, it *Iter) {
 		is.pos = np
 	} else if it.isMap {
 		is.done = st.Fresh("iterdone", is.done.Sort)
+	}
+}
+
+// bindLoopLets makes the contract's entry-state abbreviations (let) available to loop invariants
+func (x *Exec) bindLoopLets(ctx *SpecCtx, st *State, f *Frame) {
+	con := x.contractOf(f.fn)
+	if con == nil || len(con.Lets) == 0 || !f.isTop {
+		return
+	}
+	tmp := x.newSpecCtx(st, nil, f.fn)
+	tmp.bindParams(f.fn, f.params)
+	tmp.evalLetsOld(con)
+	for _, l := range con.Lets {
+		ctx.vars[l.Name] = tmp.vars[l.Name]
 	}
 }
